@@ -121,6 +121,9 @@ func (w *World) DisplayLines() []string {
 // world, or in MapSorted mode, it returns the canonical sorted order, so transformed code
 // is deterministic by default; in MapTape mode the order of each call is a tape decision.
 func MapKeys[M ~map[K]V, K comparable, V any](site string, m M) []K {
+	if Tracking && m != nil {
+		Access(site, false, m, "map") // ranging over a map reads it
+	}
 	keys := make([]K, 0, len(m))
 	for k := range m {
 		keys = append(keys, k)
